@@ -72,6 +72,7 @@ func checkC01(c *Check, a *Anchors) {
 	c01DepsJoined(c, a)
 	c01DepErrorKept(c, a)
 	sharedWait(c, a)
+	c06OnceKey(c, a) // two distinct run: once dependencies must not share an execution key (one of them would never run)
 }
 
 // rule 1: every command event of the task body is preceded by the dependency runner on its nil edge.
